@@ -103,6 +103,9 @@ def generate(ctx):
                             (1, "lazy_permuted")], "source") if rows else "memory"
     sc = {"format": fmt.name, "rows": rows, "ops": ops, "gzip": gz, "path": f"/sim/o{fmt.suffix}{'.gz' if gz else ''}",
           "eio_nth": 0, "second": None, "interleaving": [], "source": source}
+    if fmt.layout == "fastaw" and tape.boolean("fa.width", 1, 3):
+        # a FASTA writer with another line width (subclass of the buffer type with n_characters_per_line overridden)
+        sc["fasta_width"] = tape.choice([60, 7, 100], "fa.width.v")
     if source == "lazy_permuted":
         # the file holds the rows in another order; the table is file_table[perm] (an integer list that is not ascending)
         pool = list(range(len(rows)))
@@ -151,6 +154,9 @@ class Writer:
         n = call(len, table)
         self.n_rows = -1 if raised(n) else n
         self.bt = iosim.resolve(fmt.buffer) if fmt.buffer else None
+        if d.get("fasta_width") and fmt.layout == "fastaw":
+            base = self.bt or iosim.resolve(fmt.bufpath)
+            self.bt = type("FastaWidth%d" % d["fasta_width"], (base,), {"n_characters_per_line": d["fasta_width"]})
         self.w = None
         self.error = None
         self.done = False
@@ -273,6 +279,10 @@ def check_canonical(fmt, body, rows, where, detail):
             if ln.startswith(">"):
                 if len(cur) > 1 and (len(set(len(x) for x in cur[:-1])) > 1 or len(cur[-1]) > len(cur[0])):
                     raise Violation("canonical", f"{fmt.name}.wrap", dict(detail, where=where, widths=[len(x) for x in cur][:10]))
+                width = detail.get("fasta_width") or 80      # the writer's line width (80 unless overridden)
+                if cur and (any(len(x) != width for x in cur[:-1]) or len(cur[-1]) > width):
+                    raise Violation("canonical", f"{fmt.name}.line_width", dict(detail, where=where, width=width,
+                                                                                  widths=[len(x) for x in cur][:10]))
                 cur = []
             else:
                 cur.append(ln)
@@ -291,7 +301,7 @@ def execute(ctx, sc):
     fmt = T.FORMATS[sc["format"]]
     rows = sc["rows"]
     fs = simfs.SimFS()
-    detail = {"format": fmt.name, "gzip": sc["gzip"], "ops": sc["ops"], "n_rows": len(rows),
+    detail = {"format": fmt.name, "gzip": sc["gzip"], "ops": sc["ops"], "n_rows": len(rows), "fasta_width": sc.get("fasta_width"),
               "rows": [r["texts"] for r in rows][:8]}
     kinds = [o["op"] for o in sc["ops"]]
     n_reopen = kinds.count("reopen")
@@ -352,7 +362,8 @@ def execute(ctx, sc):
             ctx.probe("table_from_" + source)
         # reference: one write of the whole table
         ref_path = "/sim/ref" + fmt.suffix
-        refw = Writer(fs, {"path": ref_path, "ops": [{"op": "write", "piece": [0, len(rows)]}]}, fmt, table, cls)
+        refw = Writer(fs, {"path": ref_path, "ops": [{"op": "write", "piece": [0, len(rows)]}], "fasta_width": sc.get("fasta_width")},
+                      fmt, table, cls)
         while refw.step():
             pass
         if refw.error is not None:
